@@ -2,6 +2,7 @@ import Driver.Util
 import Lattigo.Model.Scaling
 import Lattigo.Model.BasisExt
 import Lattigo.Model.Decomp
+import Lattigo.Model.Gadget
 
 /-
   C02 line protocol (all numbers decimal, vectors `a,b`, matrices rows joined by `;`, `-` empty):
@@ -16,6 +17,7 @@ import Lattigo.Model.Decomp
   decompntt N Q gQ P gP levelQ levelP nbPi size isNTT c2   -> rowsQ|rowsP/…  rlwe.Evaluator.DecomposeNTT (one pair per digit)
   divci / moddownnttci / decompnttci      same as div (4 NTT kinds) / moddownntt / decompntt on a conjugate-invariant ring (NthRoot = 4N)
   evalmoddown ci N Q gQ P gP levelQ levelP+1 qpNTT ctNTT pQ pP -> ct|ctQP.Q after|ctQP.P after   rlwe.Evaluator.ModDown, one polynomial
+  gadgetrow qsQ qsP N w i j               -> rows (Q then P)        P·2^(w·j) on the Q rows of RNS digit i (C04's KS.pgElt), pt = 1
   mask w mask p1                          -> vec                    ring.MaskVec
   extsmall q0 P levelP row0               -> rows                   ringqp ExtendBasisSmallNormAndCenter
   extsmallntt N q0 g0 P gP levelP row0    -> rows                   rlwe.ExtendBasisSmallNormAndCenterNTTMontgomery
@@ -91,6 +93,11 @@ def handle (toks : List String) : String :=
         (qpNTT != 0) (ctNTT != 0) pQ pP
       s!"{showRows r.1}|{showRows r.2.1}|{showRows r.2.2}"
     | _, _, _, _, _, _, _, _, _, _, _, _ => badOp
+  | ["gadgetrow", qsQ, qsP, n, w, i, j] =>
+    -- rlwe.AddPolyTimesGadgetVectorToGadgetCiphertext(pt = 1, zero gadget ciphertext): the rows (Q then P) of Value[i][j][0]
+    match parseVec? qsQ, parseVec? qsP, n.toNat?, w.toNat?, i.toNat?, j.toNat? with
+    | some qsQ, some qsP, some n, some w, some i, some j => showRows (KS.pgElt qsQ qsP n w i j).c
+    | _, _, _, _, _, _ => badOp
   | ["div", kind, n, qs, gs, level, nb, p0] =>
     match n.toNat?, parseVec? qs, parseVec? gs, level.toNat?, nb.toNat?, parseMat? p0 with
     | some n, some qs, some gs, some level, some nb, some p0 => divOp kind n qs gs level nb p0
